@@ -23,8 +23,11 @@ func vSegs(p string) int { return len(strings.Split(p, ".")) }
 // the re-implemented breadcrumb walker agrees with the core one
 func H_C20_w_paths() {
 	spec := vC20spec()
-	if vChoose(2) == 1 {
+	switch vChoose(3) {
+	case 1:
 		spec.Depth, spec.Width = spec.Depth+3, 1
+	case 2:
+		spec.Depth, spec.NoListInList, spec.MapWidth = spec.Depth+1, false, 1 // lists directly inside lists
 	}
 	m := vNondetMap(spec)
 	k := vNondetString(1, 1, "ab")
